@@ -50,7 +50,8 @@ def strategy(tier: str) -> Any:
     # 'other' = an unrelated message.
     # 'form': how the literal is announced (non-synchronising, synchronising,
     # and the two literal8 spellings of RFC 3516)
-    wire = st.tuples(msg, st.sampled_from(['dict', 'dict', 'maildir']),
+    wire = st.tuples(msg, st.sampled_from(['dict', 'dict', 'dict', 'maildir',
+                                           'maildir', 'maildir-threads']),
                      rng, st.sampled_from(['none', 'none', 'dup', 'adler',
                                            'adler', 'other']),
                      st.sampled_from(['{n+}', '{n+}', '{n}', '~{n+}',
@@ -237,7 +238,7 @@ def _check_wire(case: dict[str, Any], out: CaseOut) -> None:
         sim = dict_sim()
     else:
         tmp = tempfile.mkdtemp(prefix='c03-')
-        sim = maildir_sim(tmp)
+        sim = maildir_sim(tmp, threads=backend == 'maildir-threads')
     try:
         conn = sim.connect()
         conn.take()
